@@ -465,19 +465,30 @@ func c09First(c *core.Case, o *core.Outcome) {
 			cancel()
 		}
 	}
-	hooks := &engine.Hooks{OnRate: func(k int, _ time.Time, v int) int {
-		evals.Add(1)
-		if v < 1 {
-			v = 1
-		}
-		return v
-	}}
+	var triggering atomic.Bool
+	var early atomic.Int64
+	hooks := &engine.Hooks{
+		OnTrigger: func(context.Context) { triggering.Store(true) },
+		OnRate: func(k int, _ time.Time, v int) int {
+			evals.Add(1)
+			if !triggering.Load() {
+				early.Add(1)
+			}
+			if v < 1 {
+				v = 1
+			}
+			return v
+		}}
 	r := engine.Execute(ctx, p.Spec, l, scenario, hooks, nil)
 	if r.NewErr != nil {
 		o.Inconc("harness: cannot build run: %v", r.NewErr)
 		return
 	}
 	o.Events = evals.Load() + started.Load()
+	if early.Load() > 0 {
+		o.Violate("first-early:"+p.Desc, "the rate function was evaluated %d time(s) before triggering had started (while the trigger was being built, before the scenario's setup): the value requested at the start of the run is not one evaluated when triggering starts (%s)", early.Load(), p.Desc)
+		return
+	}
 	if started.Load() == 0 {
 		o.Violate("first:"+p.Desc, "tick interval 1h, max-duration 8s: the run ended after %v with %d evaluations and no iteration started - the first evaluation/request was not made when triggering started (%s)", r.TReturn-r.TCall, evals.Load(), p.Desc)
 		return
